@@ -67,6 +67,10 @@ def layoutUL : List UStmt → Option (List Slot)
   | .setPad _ :: r => layoutUL r
   | .padRoundUp :: r => layoutUL r
   | .padIfPOdd :: r => layoutUL r
+  -- `c.F.Unmarshal(blk[offset:offset+n]); offset += n` — the error and the count of the nested decoder are not looked
+  -- at, `offset` moves by the window instead (RenameRequest): the same slot as the checked read through that window
+  | .readSub b f t (some n) false _ _ :: .advance (.lit m) :: r =>
+    if n = m then (layoutUL r).map (.sub b f t (some n) :: ·) else none
   | _ :: _ => none
 
 /-- `guardFits` with the loops: the guard in front of an integer loop asks for no more than the loop reads
@@ -114,6 +118,11 @@ def okUL (hp hd : Bool) : UPos → List String → List UStmt → Bool
   | pos, seen, .setPad e :: r => e.closed seen && okUL hp hd pos seen r
   | pos, seen, .padRoundUp :: r => okUL hp hd pos seen r
   | pos, seen, .padIfPOdd :: r => okUL hp hd pos seen r
+  -- a nested read whose error and count are dropped, behind which `offset` moves by the window: only through a window
+  -- of the type's `fixedSize` (every value of the domain then fills the window exactly, so the decoder cannot fail on
+  -- what Marshal wrote and would have reported the same count)
+  | pos, seen, .readSub b f t (some n) false _ _ :: .advance _ :: r =>
+    pos.canRead b && fixedSize t == some n && okUL hp hd (pos.read b) (f :: seen) r
   | _, _, _ :: _ => false
 
 /-- nested wire types a command marshals, those of list elements included -/
